@@ -4,3 +4,8 @@ open Uflow.Props.C06
 #print axioms C06_recv_alloc
 #print axioms C06_recv_held
 #print axioms C06_recv_state_bounded
+#print axioms C06_ackq_ghost_erase
+#print axioms C06_ackq_bounded
+#print axioms C06_ackq_bounded_sync_budget
+#print axioms C06_ackq_unbounded_without_drop_witness
+#print axioms C06_ackq_unbounded_under_wrap_witness
